@@ -48,7 +48,9 @@ class Entry:
         return f'Entry({self.kind} {self.key} {self.opts} @{self.unit}:{self.line})'
 
 
-_HDR = re.compile(r'^//!\s*(raw|spec|proof|fn|const|struct|trait)\b\s*([^\[\n]*?)\s*(\[[^\]]*\])?\s*$')
+# the KEY may itself contain brackets (`impl(From<[$D;N]>for$BUint<N>)::from`); options are the last
+# bracket group and must be separated from the KEY by white space
+_HDR = re.compile(r'^//!\s*(raw|spec|proof|fn|const|struct|trait)\b\s*(.*?)(?:\s+(\[[^\[\]]*\]))?\s*$')
 
 
 def parse_overlay_file(path, unit):
